@@ -1258,17 +1258,24 @@ theorem good_visit (isD : Char → Bool) (d : Dialect) (al : Option Str) (ha : a
         cases hy : sqlVisit isD d al r with
         | ok rs =>
           rw [hy] at hv
-          simp only [Outcome.bind_ok, Outcome.pure_eq, Outcome.ok.injEq] at hv; subst hv
+          simp only [Outcome.bind_ok, Outcome.pure_eq] at hv
           have hL := good_wrap (good_visit isD d al ha l ls hl.1 hx) l 4 true
           have hR := good_wrap (good_visit isD d al ha r rs hl.2 hy) r 4 true
-          have := good_mid (sp :: cmpPieces op r ++ [sp]) hL hR (by
+          have hmid : ∀ x : Expr, shapeOk (none :: ((sp :: cmpPieces op x ++ [sp]).map some ++ [none])) = true := by
+            intro x
             unfold cmpPieces
             split
             · decide
             · split
               · decide
-              · cases op <;> decide)
-          simpa using this
+              · cases op <;> decide
+          split at hv
+          · simp only [Outcome.ok.injEq] at hv; subst hv
+            have := good_mid (sp :: cmpPieces op l ++ [sp]) hR hL (hmid l)
+            simpa using this
+          · simp only [Outcome.ok.injEq] at hv; subst hv
+            have := good_mid (sp :: cmpPieces op r ++ [sp]) hL hR (hmid r)
+            simpa using this
         | lib e => rw [hy] at hv; cases hv
         | notImplemented => rw [hy] at hv; cases hv
         | foreign c => rw [hy] at hv; cases hv
